@@ -72,6 +72,9 @@ func (g *gen) sliceInOut(name string, typs []types.Type) (inTyp types.Type, outT
 	if !ok {
 		return nil, nil, fmt.Errorf("%s, the first argument, %s, is not of type function", name, g.TypeString(typs[0]))
 	}
+	if sig.Variadic() {
+		return nil, nil, fmt.Errorf("%s, the first argument, %s, is a variadic function, which is not supported", name, g.TypeString(typs[0]))
+	}
 	params := sig.Params()
 	if params.Len() != 1 {
 		return nil, nil, fmt.Errorf("%s, the first argument is a function, but wanted a function with one argument", name)
